@@ -1,4 +1,5 @@
 import OrdModel.Proofs.IndexRunemintChain
+import OrdModel.Proofs.IndexLiftRuneFrame
 /-!
 # C10 — Mint terms are enforced
 
@@ -164,6 +165,33 @@ theorem c10_mints_le_cap_rune_only (cfg : Cfg)
     (hc : ChainOK chain) (id : RuneId) (e : RuneEntry) (hg : AL.get st.runeEntries id = some e) :
     e.mints ≤ (e.terms.bind (·.cap)).getD 0 ∧ (e.terms = none → e.mints = 0) :=
   c10_mints_le_cap_partial cfg (Or.inl (by simp [hcfg.1, hcfg.2.1, hcfg.2.2])) chain st evs hr hc id e hg
+
+/-- **The sat / address / inscription pass is a frame for the rune tables** (every configuration):
+whenever `indexUtxoEntries` returns, `runeEntries`, `rune2id`, `runes`, `reservedRunes`,
+`txid2rune`, `balances` and `seq2rune` are what they were.  (It does write `id2seq`, which
+`createRuneEntry` reads afterwards to fill `seq2rune`; that is not a rune table.)  This is the
+former hypothesis `UtxoFrame cfg` of the chain-level theorems, now proved
+(`Proofs/IndexLiftRuneFrame.lean`). -/
+theorem c10_utxo_frame (cfg : Cfg) (st : State) (blk : Block) (st1 : State) (ev : List Event)
+    (h : indexUtxoEntries cfg st blk = .ok (st1, ev)) :
+    st1.runeEntries = st.runeEntries ∧ st1.rune2id = st.rune2id ∧ st1.runes = st.runes ∧
+    st1.reservedRunes = st.reservedRunes ∧ st1.txid2rune = st.txid2rune ∧ st1.balances = st.balances ∧
+    st1.seq2rune = st.seq2rune :=
+  RuneLift.indexUtxoEntries_frame cfg st blk st1 ev h
+
+/-- **The mint count never exceeds the cap — every configuration, every reachable state** of a
+chain of consecutive blocks (all combinations of the sat / inscription / address / rune
+indexes).  FULL: no frame hypothesis left. -/
+theorem c10_mints_le_cap (cfg : Cfg) (chain : List Block) (st : State)
+    (evs : List Event) (hr : run cfg chain = .ok (st, evs)) (hc : ChainOK chain)
+    (id : RuneId) (e : RuneEntry) (hg : AL.get st.runeEntries id = some e) :
+    e.mints ≤ (e.terms.bind (·.cap)).getD 0 ∧ (e.terms = none → e.mints = 0) :=
+  c10_mints_le_cap_partial cfg (RuneLift.frameOK cfg) chain st evs hr hc id e hg
+
+/-- non-vacuous: a one-block chain with one transaction is indexed by the full index -/
+example : ∃ st evs, run ⟨true, true, true, true, true, 0, 0, 0⟩
+    [⟨0, 0, 0, 0, [⟨1, [⟨OutPoint.null, false, none, []⟩], [⟨50, false, []⟩], [], none, 0⟩]⟩] = .ok (st, evs) :=
+  ⟨_, _, rfl⟩
 
 example : RInv {} 0 0 := RInv_empty 0 0
 example : ChainOK [⟨0, 0, 0, 0, []⟩, ⟨1, 0, 0, 0, []⟩] := by
